@@ -169,11 +169,23 @@ def judge(case: dict[str, Any]) -> Judgement:
         dead[fr] = True
     alive_certain = bool(np.any((cw > 0) & ~dead)) and not case["filter"]
 
-    for split in (False, True):
+    for split in (False, True, "near"):
         evaluator = TableEvaluator(ens_fn, 2, 1, fail=fail)
         ens = EnsembleEvaluator(config, transforms, evaluator, manager)
         try:
-            if split:
+            if split == "near":
+                # functions at a point 4e-6 (relative) away, then a gradient-only request at x: the gradient must be
+                # the gradient at x, computed with function values of x (not the ones kept from the nearby point)
+                ens.calculate(x * (1.0 + 4e-6), compute_functions=True, compute_gradients=False)
+                res = ens.calculate(x, compute_functions=False, compute_gradients=True)
+                transitions += 2
+                gres = next(item for item in res if isinstance(item, GradientResults))
+                x_user = x if transforms is None else transforms.variables.from_optimizer(x)
+                near_f = np.array([ens_fn(np.asarray(x_user), r) for r in range(R)], dtype=np.float64)
+                if failure == "real":
+                    near_f[fr, :] = np.nan
+                fres = None
+            elif split:
                 (fres,) = ens.calculate(x, compute_functions=True, compute_gradients=False)
                 (gres,) = ens.calculate(x, compute_functions=False, compute_gradients=True)
                 transitions += 2
@@ -190,13 +202,16 @@ def judge(case: dict[str, Any]) -> Judgement:
             if alive_certain:
                 j.fail(f"unexpected-exception:{type(exc).__name__}", split=split)
             continue
-        assert isinstance(fres, FunctionResults) and isinstance(gres, GradientResults)
+        assert isinstance(gres, GradientResults)
         if gres.gradients is None:
             outcome.append("no-gradients")
             continue
-        tag = "split" if split else "combined"
+        tag = "near" if split == "near" else ("split" if split else "combined")
         # ---- reference, from what was reported ---------------------------------
-        fvals = np.hstack([fres.evaluations.objectives, fres.evaluations.constraints])  # (R,3) optimizer domain == user domain
+        if fres is None:
+            fvals = near_f
+        else:
+            fvals = np.hstack([fres.evaluations.objectives, fres.evaluations.constraints])  # (R,3) optimizer domain == user domain
         pvals = np.concatenate([gres.evaluations.perturbed_objectives, gres.evaluations.perturbed_constraints], axis=-1)  # (R,P,3)
         failed_f = np.isnan(fvals[:, 0])
         pert_ok = ~np.isnan(pvals[..., 0])  # (R,P)
